@@ -316,6 +316,31 @@ fn run(ctx: &mut Ctx) {
             }
         }
     }
+    // strict binary operators with a degenerate constant on one side (empty list / map / string, zero, NaN, none, …): the
+    // other operand is still evaluated exactly once — no value of one operand decides a strict operator early
+    {
+        let constants = || -> Vec<Expr> {
+            vec![
+                Expr::Vec(vec![]), Expr::Map(BTreeMap::new()), Expr::value(String::new()), Expr::value(0), Expr::value(0.0), Expr::value(f64::NAN), Expr::value(f64::INFINITY), Expr::Value(Value::None),
+                Expr::value(false), Expr::value(true), Expr::value(1), Expr::Vec(vec![Expr::Value(Value::None)]), Expr::value(rust_decimal::Decimal::ZERO), Expr::value("s".to_string()), Expr::value(i128::MAX), Expr::value(i128::MIN),
+                Expr::index(Expr::Vec(vec![Expr::Vec(vec![])]), Index::from(0usize)),
+            ]
+        };
+        for (op, ar) in OPS {
+            if ar != 2 || ["and", "or", "eq", "neq"].contains(&op) {
+                continue;
+            }
+            for c in constants() {
+                for l in LEAVES {
+                    if !ctx.mine() {
+                        continue;
+                    }
+                    judge(ctx, &mk(op, vec![c.clone(), ids.leaf(l)]), "strict-operators-with-a-degenerate-constant-operand");
+                    judge(ctx, &mk(op, vec![ids.leaf(l), c.clone()]), "strict-operators-with-a-degenerate-constant-operand");
+                }
+            }
+        }
+    }
     // unreached positions holding constant sub-expressions that fail if evaluated (nothing to log — the
     // outcome shows it): literal division by zero, a bad cast, a type error, an unknown reference
     {
